@@ -32,9 +32,25 @@ def _close(a, b):
 def validate_encoder(p):
     cases, failures, samples = 0, [], []
     for it in p.get("items", []):
-        modname, _, fname = it["qual"].rpartition(".")
-        fn = getattr(importlib.import_module(modname), fname)
-        args = {k: _np(v, k) for k, v in it["args"].items()}
+        if it.get("self"):
+            # a method: the real class, instantiated without running __init__, carrying the given attribute values
+            modname, _, cname = it["self"]["cls"].rpartition(".")
+            cls = getattr(importlib.import_module(modname), cname)
+            obj = cls.__new__(cls)
+            for k, v in it["self"]["attrs"].items():
+                setattr(obj, k, np.array(v, float) if isinstance(v, list) else v)
+            fn = getattr(obj, it["qual"].rpartition(".")[2])
+        else:
+            modname, _, fname = it["qual"].rpartition(".")
+            fn = getattr(importlib.import_module(modname), fname)
+        args = {}
+        for k, v in it["args"].items():
+            if isinstance(v, dict) and "timedelta64" in v:
+                args[k] = np.timedelta64(int(v["timedelta64"]), "s")
+            elif isinstance(v, list) and v and isinstance(v[-1], str):
+                args[k] = list(v)
+            else:
+                args[k] = _np(v, k)
         cases += 1
         try:
             res = fn(**args)
@@ -46,6 +62,12 @@ def validate_encoder(p):
                 failures.append(dict(function=it["name"], what="exception behaviour differs", interpreter=it.get("raises"), real=real_raise, args=it["args"]))
             continue
         exp = it["result"]
+        if isinstance(res, np.timedelta64):
+            res = int(res / np.timedelta64(1, "s"))
+        if isinstance(res, str) or isinstance(exp, str):
+            if res != exp:
+                failures.append(dict(function=it["name"], what="result differs", interpreter=exp, real=res, args=it["args"]))
+            continue
         if isinstance(res, tuple):
             res = [np.asarray(r).tolist() for r in res]
         elif isinstance(res, np.ndarray):
